@@ -309,7 +309,7 @@ func stubPoolPut(s *State, a []Value) Value {
 	}
 	for _, old := range s.pools[p.Obj] {
 		if sameRef(old, v) {
-			s.recordViolation("pool-double-put", "the same object is put into a sync.Pool twice")
+			s.poisonHits = append(s.poisonHits[:len(s.poisonHits):len(s.poisonHits)], "the same object is put into a sync.Pool twice"+s.where())
 		}
 	}
 	s.pools[p.Obj] = append(s.pools[p.Obj][:len(s.pools[p.Obj]):len(s.pools[p.Obj])], v)
